@@ -944,3 +944,395 @@ Proof.
     rewrite X, S2. ring. }
   intros i Hi Bi. destruct (Nat.eq_dec i r) as [->|N]; [exact Rr|]. apply R; [split; assumption | exact N].
 Qed.
+
+(* ------------------------------------------------------------------ reset_active_lm: frame and length *)
+Definition lmf (s : st) (this : nat) (x : st) : Prop :=
+  lm_only s x /\ length (clm x) = length (clm s) /\ forall e, ~ Eof s this e -> lm_of x e = lm_of s e.
+
+Lemma lmf_set_lm s this x c :
+  act_inv s -> lmf s this x -> (c < length (scons s))%nat -> act_of s c = true ->
+  (blk_of s (cl (con_of s c)) = this \/ blk_of s (cr (con_of s c)) = this) -> lmf s this (set_lm x c 0).
+Proof.
+  intros AI [L [Len Fr]] Hc Ac Hb. split; [apply (lm_only_trans _ x); [exact L | apply lm_only_set_lm]|]. split.
+  - unfold set_lm. cbn [clm set_clm]. rewrite upd_nth_length. exact Len.
+  - intros e Ne. rewrite lm_of_set_lm_neq; [apply Fr; exact Ne|]. intros ->. apply Ne.
+    split; [exact Hc|]. split; [exact Ac|]. destruct (AI c Ac) as [Sb _]. destruct Hb as [X|X]; congruence.
+Qed.
+
+Lemma reset_active_lm_frame s this : act_inv s -> forall fuel v u x x',
+  lmf s this x -> reset_active_lm fuel this v u x = Ok x' -> lmf s this x'.
+Proof.
+  intros AI. induction fuel as [|f IH]; intros v u x x' F H; [discriminate|].
+  cbn [reset_active_lm] in H.
+  set (gout := fun (s' : st) (c : nat) => if can_follow_right s' this c u
+                 then reset_active_lm f this (cr (con_of s' c)) (Some v) (set_lm s' c 0) else Ok s') in *.
+  set (gin := fun (s' : st) (c : nat) => if can_follow_left s' this c u
+                 then reset_active_lm f this (cl (con_of s' c)) (Some v) (set_lm s' c 0) else Ok s') in *.
+  pose proof (proj1 F) as Lx.
+  destruct (fold_bind_inv gin (lmf s this) (ins_of x v)) with
+    (acc := fold_left (fun acc c => bind acc (fun y => gout y c)) (outs_of x v) (Ok x)) (r := x') as [smid [Emid Rin]].
+  { intros y c y' Hc Fy G. unfold gin in G. pose proof (proj1 Fy) as Ly.
+    rewrite (lm_only_follow_left _ _ this c u Ly) in G.
+    destruct (can_follow_left s this c u) eqn:CF; [|inversion G; subst; exact Fy].
+    apply can_follow_left_true in CF. destruct CF as [Bc [Ac _]].
+    rewrite (lm_only_ins _ _ v Lx) in Hc. apply ins_of_In in Hc. destruct Hc as [Hc _].
+    apply (IH _ _ _ _ (lmf_set_lm s this y c AI Fy Hc Ac (or_introl Bc)) G). }
+  { exact H. }
+  destruct (fold_bind_inv gout (lmf s this) (outs_of x v)) with (acc := Ok x) (r := smid) as [s0 [E0 Rout]].
+  { intros y c y' Hc Fy G. unfold gout in G. pose proof (proj1 Fy) as Ly.
+    rewrite (lm_only_follow_right _ _ this c u Ly) in G.
+    destruct (can_follow_right s this c u) eqn:CF; [|inversion G; subst; exact Fy].
+    apply can_follow_right_true in CF. destruct CF as [Bc [Ac _]].
+    rewrite (lm_only_outs _ _ v Lx) in Hc. apply outs_of_In in Hc. destruct Hc as [Hc _].
+    apply (IH _ _ _ _ (lmf_set_lm s this y c AI Fy Hc Ac (or_intror Bc)) G). }
+  { exact Emid. }
+  inversion E0. subst s0. apply Rin, Rout. exact F.
+Qed.
+
+Lemma fresh_lm_only s x b : lm_only s x -> fresh s b -> fresh x b.
+Proof. intros [lm [t ->]] H. exact H. Qed.
+Lemma resid_lm_only s x x' w : lm_only s x -> resid x x' w = resid s x' w.
+Proof. intros [lm [t ->]]. reflexivity. Qed.
+
+(* what findMinLM needs to know about its block *)
+Definition block_ready (s : st) (b : nat) : Prop :=
+  (front s b < length (svars s))%nat /\ blk_of s (front s b) = b /\ fresh s b.
+
+Theorem find_min_lm_stationary s b mn s' :
+  book s -> act_inv s -> forest s -> (forall i, ~ scl (var_of s i) == 0) ->
+  block_ready s b -> length (clm s) = length (scons s) ->
+  find_min_lm s b = Ok (mn, s') ->
+  lm_only s s' /\ length (clm s') = length (scons s) /\
+  (forall e, ~ Eof s b e -> lm_of s' e = lm_of s e) /\ stationary_block s s' b.
+Proof.
+  intros BK AI FO NZ [Hr [Hb FR]] Hlen H. unfold find_min_lm in H.
+  apply bind_ok in H. destruct H as [s1 [H1 H]].
+  apply bind_ok in H. destruct H as [[[d mn2] s2] [H2 H]]. inversion H. subst mn2 s2. clear H.
+  assert (F0 : lmf s b s) by (split; [apply lm_only_refl | split; [reflexivity | intros; reflexivity]]).
+  destruct (reset_active_lm_frame s b AI _ _ _ _ _ F0 H1) as [L1 [Len1 Fr1]].
+  rewrite (lm_only_walk_fuel _ _ L1) in H2 || idtac.
+  destruct (compute_dfdv_root_stationary s b true None s1 d mn s' BK AI FO NZ Hr Hb FR L1) as [L2 [Len2 [Fr2 ST]]].
+  - rewrite Len1. exact Hlen.
+  - exact H2.
+  - split; [exact L2|]. split; [exact Len2|]. split; [|exact ST].
+    intros e Ne. rewrite (Fr2 e Ne). apply Fr1. exact Ne.
+Qed.
+
+(* ------------------------------------------------------------------ findMinLM on every block *)
+Definition all_fresh (s : st) : Prop := forall v, (v < length (svars s))%nat -> fresh s (blk_of s v).
+
+Lemma var_block_ready s v : book s -> all_ok s -> all_fresh s -> (v < length (svars s))%nat -> block_ready s (blk_of s v).
+Proof.
+  intros BK [_ AO] AF Hv. pose proof (bk_blk s BK v Hv) as Hb. destruct (AO _ Hb) as [NE _].
+  assert (Hin : In (front s (blk_of s v)) (bvars (block_of s (blk_of s v)))).
+  { unfold front. destruct (bvars (block_of s (blk_of s v))) as [|h t]; [congruence | left; reflexivity]. }
+  apply (bk_mem s BK v _ Hv) in Hin. destruct Hin as [A B]. split; [exact A|]. split; [exact B | exact (AF v Hv)].
+Qed.
+
+Definition relm_inv (s x : st) : Prop := lm_only s x /\ length (clm x) = length (scons s).
+
+Lemma relm_block_step s x b x' :
+  book s -> act_inv s -> forest s -> (forall i, ~ scl (var_of s i) == 0) -> block_ready s b ->
+  relm_inv s x -> relm_block x b = Ok x' ->
+  relm_inv s x' /\ stationary_block s x' b /\ (forall e, ~ Eof s b e -> lm_of x' e = lm_of x e).
+Proof.
+  intros BK AI FO NZ [R1 [R2 R3]] [L Len] H. unfold relm_block in H.
+  apply bind_ok in H. destruct H as [[mn y] [H E]]. inversion E. subst x'. clear E. cbn [snd].
+  assert (Ex : svars x = svars s /\ scons x = scons s /\ blk_of x = blk_of s /\ front x b = front s b /\ var_of x = var_of s /\ Eof x b = Eof s b).
+  { destruct L as [lm [t ->]]. repeat split; reflexivity. }
+  destruct Ex as [X1 [X2 [X3 [X4 [X5 X6]]]]].
+  destruct (find_min_lm_stationary x b mn y (book_lm_only _ _ L BK) (act_inv_lm_only _ _ L AI) (forest_lm_only _ _ L FO)) as [Ly [Leny [Fr ST]]]; auto.
+  - rewrite X5. exact NZ.
+  - split; [rewrite X4, X1; exact R1|]. split; [rewrite X3, X4; exact R2 | exact (fresh_lm_only _ _ _ L R3)].
+  - rewrite X2. exact Len.
+  - split; [split; [apply (lm_only_trans _ x); assumption | rewrite Leny, X2; reflexivity]|]. split.
+    + intros i Hi Bi. rewrite <- (resid_lm_only s x y i L). apply ST; [rewrite X1; exact Hi | rewrite X3; exact Bi].
+    + rewrite <- X6. exact Fr.
+Qed.
+
+Theorem relm_blocks_stationary s bl s' :
+  book s -> act_inv s -> forest s -> (forall i, ~ scl (var_of s i) == 0) ->
+  (forall b, In b bl -> block_ready s b) -> length (clm s) = length (scons s) ->
+  relm_blocks s bl = Ok s' ->
+  relm_inv s s' /\ forall b, In b bl -> stationary_block s s' b.
+Proof.
+  intros BK AI FO NZ RD Hlen H. unfold relm_blocks in H.
+  destruct (fold_bind_inv2 relm_block (relm_inv s) (fun b x => stationary_block s x b) bl) with (acc := Ok s) (r := s') as [x0 [E0 R]].
+  - intros x b x' Hb Ix G. destruct (relm_block_step s x b x' BK AI FO NZ (RD b Hb) Ix G) as [A [B _]]. split; assumption.
+  - intros a b x x' Hb Ix Qa G. destruct (relm_block_step s x b x' BK AI FO NZ (RD b Hb) Ix G) as [Ix' [Qb Fr]].
+    destruct (Nat.eq_dec a b) as [->|N]; [exact Qb|].
+    intros i Hi Bi. rewrite (resid_ext s x x' i (proj1 Ix) (proj1 Ix')); [exact (Qa i Hi Bi)|].
+    intros c Hc. apply Fr. intros [Hc' [Ac Bc]]. apply N. rewrite <- Bi, <- Bc.
+    destruct Hc as [Hc|Hc]; [apply outs_of_In in Hc | apply ins_of_In in Hc]; destruct Hc as [_ Hc]; rewrite <- Hc; [reflexivity|].
+    symmetry. exact (proj1 (AI c Ac)).
+  - exact H.
+  - inversion E0. subst x0. apply R. split; [apply lm_only_refl | exact Hlen].
+Qed.
+
+(* C02 stationarity: re-running findMinLM on the block of every variable leaves the stationarity equation of KKT.v
+   satisfied, exactly, at every variable - for the state's own positions *)
+Theorem relm_stationary s s' :
+  inv s -> all_ok s -> all_fresh s -> length (clm s) = length (scons s) ->
+  relm s = Ok s' ->
+  lm_only s s' /\
+  forall i, (i < length (svars s))%nat -> stat_res (svars s) (lcons_of s') (xs_of s) i == 0.
+Proof.
+  intros I AO AF Hlen H. pose proof (i_book s I) as BK.
+  assert (NZ : forall i, ~ scl (var_of s i) == 0).
+  { intros i. destruct (vget_pos (svars s) i (proj1 AO)) as [_ P]. unfold var_of. lra. }
+  destruct (relm_blocks_stationary s (var_blocks s) s' BK (i_act s I) (i_forest s I) NZ) as [[L _] ST]; auto.
+  - intros b Hb. unfold var_blocks in Hb. apply nodup_In in Hb. apply in_map_iff in Hb. destruct Hb as [v [<- Hv]].
+    apply in_seq in Hv. apply var_block_ready; auto. lia.
+  - split; [exact L|]. intros i Hi. rewrite (stat_res_resid s s' i L Hi).
+    apply (ST (blk_of s i)); [|exact Hi | reflexivity].
+    unfold var_blocks. apply nodup_In. apply in_map. apply in_seq. lia.
+Qed.
+
+(* ------------------------------------------------------------------ near-optimality from the recomputed multipliers *)
+Definition mcons (s : st) (f : nat -> Q) : list (con * Q) := combine (scons s) (map f (seq 0 (length (scons s)))).
+
+Lemma outs_mcons s f i : outs (mcons s f) i == csum (outs_of s i) f.
+Proof. unfold outs, mcons, outs_of, idx_filter. apply (csum_idx_filter (fun c => Nat.eqb (cl c) i) f (scons s) 0). Qed.
+Lemma ins_mcons s f i : ins (mcons s f) i == csum (ins_of s i) f.
+Proof. unfold ins, mcons, ins_of, idx_filter. apply (csum_idx_filter (fun c => Nat.eqb (cr c) i) f (scons s) 0). Qed.
+
+Lemma in_mcons s f p : In p (mcons s f) -> exists k, (k < length (scons s))%nat /\ fst p = con_of s k /\ snd p = f k.
+Proof.
+  destruct p as [c l]. unfold mcons, con_of. generalize (scons s) as cs. intros cs.
+  assert (G : forall a0, In (c, l) (combine cs (map f (seq a0 (length cs)))) ->
+              exists k, (k < length cs)%nat /\ c = nth k cs dcon /\ l = f (a0 + k)%nat).
+  { induction cs as [|h t IH]; intros a0 H; cbn in H; [contradiction|]. destruct H as [H|H].
+    - inversion H. subst. exists O. cbn. rewrite Nat.add_0_r. repeat split; lia.
+    - destruct (IH (S a0) H) as [k [A [B C]]]. exists (S k). cbn. replace (a0 + S k)%nat with (S a0 + k)%nat by lia. repeat split; try assumption. lia. }
+  intros H. destruct (G O H) as [k [A [B C]]]. exists k. cbn in C. auto.
+Qed.
+
+(* the recomputed multiplier with a negative value on an inequality clipped to 0, and the amount clipped *)
+Definition clipv (s x : st) (c : nat) : Q := clip (con_of s c) (lam_at x c).
+Definition negpart (s x : st) (c : nat) : Q := clipv s x c - lam_at x c.
+
+Lemma negpart_nonneg s x c : 0 <= negpart s x c.
+Proof. unfold negpart, clipv, clip. destruct (ceq (con_of s c)); [lra|]. qcase; qb2p; lra. Qed.
+
+Definition gap_of (s x : st) : Q :=
+  sumn (length (svars s)) (fun i =>
+    sq (scl (var_of s i) * (csum (outs_of s i) (negpart s x) - csum (ins_of s i) (negpart s x))) / (4 * wt (var_of s i))).
+
+Theorem relm_gap_bound s s' :
+  inv s -> all_ok s -> all_fresh s -> length (clm s) = length (scons s) ->
+  relm s = Ok s' ->
+  forall y, feasible (svars s) (scons s) y ->
+    obj (svars s) (xs_of s) - obj (svars s) y <= gap_of s s'.
+Proof.
+  intros I AO AF Hlen H y Fy. pose proof (i_book s I) as BK. pose proof (proj1 AO) as WV.
+  destruct (relm_stationary s s' I AO AF Hlen H) as [L ST].
+  assert (NZ : forall i, ~ scl (var_of s i) == 0).
+  { intros i. destruct (vget_pos (svars s) i WV) as [_ P]. unfold var_of. lra. }
+  set (L' := mcons s (clipv s s')).
+  assert (W : wf_lcons (svars s) L').
+  { intros p Hp. destruct (in_mcons s _ p Hp) as [k [Hk [E1 _]]]. rewrite E1. apply (bk_cons s BK). unfold con_of. apply nth_In. exact Hk. }
+  assert (SG : forall p, In p L' -> ceq (fst p) = false -> 0 <= snd p).
+  { intros p Hp Eq. destruct (in_mcons s _ p Hp) as [k [Hk [E1 E2]]]. rewrite E2. unfold clipv, clip. rewrite <- E1, Eq. qcase; qb2p; lra. }
+  assert (LF : lfeasible (svars s) L' y).
+  { intros p Hp. destruct (in_mcons s _ p Hp) as [k [Hk [E1 _]]]. rewrite E1. apply Fy. unfold con_of. apply nth_In. exact Hk. }
+  pose proof (kkt_gap_bound_l (svars s) L' (xs_of s) y WV W SG LF) as GB. unfold gap_bound in GB.
+  (* complementary slackness: the second term vanishes *)
+  assert (Z2 : csum L' (fun p => snd p * slackv (svars s) (xs_of s) (fst p)) == 0).
+  { rewrite <- (csum_zero L'). apply csum_ext. intros p Hp. destruct (in_mcons s _ p Hp) as [k [Hk [E1 E2]]]. rewrite E1, E2.
+    assert (Hin : In (con_of s k) (scons s)) by (unfold con_of; apply nth_In; exact Hk).
+    destruct (bk_cons s BK _ Hin) as [Hl Hr].
+    unfold clipv, lam_at. assert (Ea : act_of s' k = act_of s k) by (destruct L as [lm [t ->]]; reflexivity). rewrite Ea.
+    destruct (act_of s k) eqn:A.
+    - unfold xs_of. rewrite <- (slack_val_declarative s k Hl Hr).
+      rewrite (active_tight s k (i_act s I) A (NZ _) (NZ _)). ring.
+    - unfold clip. destruct (ceq (con_of s k)); [ring|]. qcase; ring. }
+  (* stationarity: the first term only sees the clipped amounts *)
+  assert (Z1 : sumn (length (svars s)) (fun i => sq (stat_res (svars s) L' (xs_of s) i) / (4 * wt (vget (svars s) i))) == gap_of s s').
+  { unfold gap_of. apply sumn_ext. intros i Hi.
+    assert (E : stat_res (svars s) L' (xs_of s) i ==
+                scl (var_of s i) * (csum (outs_of s i) (negpart s s') - csum (ins_of s i) (negpart s s'))).
+    { pose proof (ST i Hi) as S0. rewrite (stat_res_resid s s' i L Hi) in S0. unfold resid, OUT, IN in S0.
+      unfold stat_res. unfold L'. rewrite outs_mcons, ins_mcons.
+      assert (Eo : csum (outs_of s i) (clipv s s') == csum (outs_of s i) (lam_at s') + csum (outs_of s i) (negpart s s')).
+      { rewrite <- csum_plus. apply csum_ext. intros c _. unfold negpart. ring. }
+      assert (Ei : csum (ins_of s i) (clipv s s') == csum (ins_of s i) (lam_at s') + csum (ins_of s i) (negpart s s')).
+      { rewrite <- csum_plus. apply csum_ext. intros c _. unfold negpart. ring. }
+      rewrite Eo, Ei. unfold xs_of. rewrite final_positions_nth by exact Hi.
+      unfold dfdv in S0. rewrite Qred_correct in S0. unfold var_of in *. lra. }
+    unfold sq. rewrite E. unfold var_of. reflexivity. }
+  rewrite Z1, Z2 in GB. lra.
+Qed.
+
+(* if no recomputed multiplier of an active inequality is negative, no feasible placement is better *)
+Corollary relm_optimal s s' :
+  inv s -> all_ok s -> all_fresh s -> length (clm s) = length (scons s) ->
+  relm s = Ok s' ->
+  (forall c, (c < length (scons s))%nat -> act_of s c = true -> ceq (con_of s c) = false -> 0 <= lm_of s' c) ->
+  forall y, feasible (svars s) (scons s) y -> obj (svars s) (xs_of s) <= obj (svars s) y.
+Proof.
+  intros I AO AF Hlen H NN y Fy. pose proof (relm_gap_bound s s' I AO AF Hlen H y Fy) as GB.
+  destruct (relm_stationary s s' I AO AF Hlen H) as [L _].
+  assert (Z : forall c, (c < length (scons s))%nat -> negpart s s' c == 0).
+  { intros c Hc. unfold negpart, clipv, clip, lam_at.
+    assert (Ea : act_of s' c = act_of s c) by (destruct L as [lm [t ->]]; reflexivity). rewrite Ea.
+    destruct (act_of s c) eqn:A.
+    - destruct (ceq (con_of s c)) eqn:Q; [ring|]. pose proof (NN c Hc A Q). qcase; qb2p; lra.
+    - destruct (ceq (con_of s c)); [ring|]. qcase; ring. }
+  assert (G0 : gap_of s s' == 0).
+  { unfold gap_of. rewrite <- (sumn_zero (length (svars s))). apply sumn_ext. intros i Hi.
+    assert (Zo : csum (outs_of s i) (negpart s s') == 0).
+    { rewrite <- (csum_zero (outs_of s i)). apply csum_ext. intros c Hc. apply outs_of_In in Hc. apply Z. tauto. }
+    assert (Zi : csum (ins_of s i) (negpart s s') == 0).
+    { rewrite <- (csum_zero (ins_of s i)). apply csum_ext. intros c Hc. apply ins_of_In in Hc. apply Z. tauto. }
+    cbv beta. unfold sq. rewrite Zo, Zi. unfold Qdiv. ring. }
+  rewrite G0 in GB. lra.
+Qed.
+
+(* explicit form of the bound when every recomputed multiplier of an active inequality is >= -tau (the exit test of
+   splitBlocks with tau = 1e-4): each variable contributes at most (scl_i * tau * deg_i)^2 / (4 w_i), deg_i = number of
+   constraints at variable i *)
+Definition deg (s : st) (i : nat) : Q := inject_Z (Z.of_nat (length (outs_of s i) + length (ins_of s i))).
+Definition tau_bound (s : st) (tau : Q) : Q :=
+  sumn (length (svars s)) (fun i => sq (scl (var_of s i) * tau * deg s i) / (4 * wt (var_of s i))).
+
+Lemma csum_le_const (l : list nat) (f : nat -> Q) tau :
+  (forall c, In c l -> 0 <= f c <= tau) -> 0 <= csum l f <= tau * inject_Z (Z.of_nat (length l)).
+Proof.
+  induction l as [|a l IH]; intros H; cbn [csum length].
+  - split; [lra|]. change (inject_Z (Z.of_nat 0)) with 0. lra.
+  - destruct (H a (or_introl eq_refl)) as [A B]. destruct IH as [C D]; [intros c Hc; apply H; right; exact Hc|].
+    rewrite Nat2Z.inj_succ. unfold Z.succ. rewrite inject_Z_plus. change (inject_Z 1) with 1. split; lra.
+Qed.
+
+Theorem gap_of_tau s x tau :
+  wf_vars (svars s) -> 0 <= tau -> (forall c, negpart s x c <= tau) -> gap_of s x <= tau_bound s tau.
+Proof.
+  intros WV T H. unfold gap_of, tau_bound. apply sumn_le. intros i Hi.
+  destruct (WV i Hi) as [Pw Ps]. unfold var_of.
+  assert (Bo := csum_le_const (outs_of s i) (negpart s x) tau (fun c _ => conj (negpart_nonneg s x c) (H c))).
+  assert (Bi := csum_le_const (ins_of s i) (negpart s x) tau (fun c _ => conj (negpart_nonneg s x c) (H c))).
+  set (a := csum (outs_of s i) (negpart s x)) in *. set (b := csum (ins_of s i) (negpart s x)) in *.
+  set (no := inject_Z (Z.of_nat (length (outs_of s i)))) in *. set (ni := inject_Z (Z.of_nat (length (ins_of s i)))) in *.
+  assert (Ed : deg s i == no + ni) by (unfold deg, no, ni; rewrite Nat2Z.inj_add, inject_Z_plus; reflexivity).
+  set (sc := scl (vget (svars s) i)) in *. set (w := wt (vget (svars s) i)) in *.
+  assert (Sq : sq (sc * (a - b)) <= sq (sc * tau * deg s i)).
+  { unfold sq. rewrite Ed. set (N := tau * (no + ni)).
+    assert (B1 : - N <= a - b) by (unfold N; lra). assert (B2 : a - b <= N) by (unfold N; lra).
+    assert (P1 : 0 <= (N - (a - b)) * (N + (a - b))) by (apply Qmult_le_0_compat; lra).
+    assert (P2 : 0 <= sc * sc) by nra.
+    assert (E : sc * tau * (no + ni) * (sc * tau * (no + ni)) - sc * (a - b) * (sc * (a - b)) == (sc * sc) * ((N - (a - b)) * (N + (a - b))))
+      by (unfold N; ring).
+    assert (P3 : 0 <= (sc * sc) * ((N - (a - b)) * (N + (a - b)))) by (apply Qmult_le_0_compat; assumption).
+    lra. }
+  unfold Qdiv. apply Qmult_le_compat_r; [exact Sq|]. apply Qlt_le_weak, Qinv_lt_0_compat. lra.
+Qed.
+
+(* C02 near-optimality of a state from its own recomputed multipliers, in terms of the exit tolerance *)
+Corollary relm_near_optimal s s' tau :
+  inv s -> all_ok s -> all_fresh s -> length (clm s) = length (scons s) ->
+  relm s = Ok s' -> 0 <= tau ->
+  (forall c, (c < length (scons s))%nat -> act_of s c = true -> ceq (con_of s c) = false -> - tau <= lm_of s' c) ->
+  forall y, feasible (svars s) (scons s) y -> obj (svars s) (xs_of s) - obj (svars s) y <= tau_bound s tau.
+Proof.
+  intros I AO AF Hlen H T NN y Fy. pose proof (relm_gap_bound s s' I AO AF Hlen H y Fy) as GB.
+  destruct (relm_stationary s s' I AO AF Hlen H) as [L _].
+  assert (Z : forall c, negpart s s' c <= tau).
+  { intros c. unfold negpart, clipv, clip, lam_at.
+    assert (Ea : act_of s' c = act_of s c) by (destruct L as [lm [t ->]]; reflexivity). rewrite Ea.
+    destruct (act_of s c) eqn:A.
+    - destruct (ceq (con_of s c)) eqn:Q; [lra|].
+      assert (Hc : (c < length (scons s))%nat) by (rewrite <- (bk_cact s (i_book s I)); apply act_of_lt; exact A).
+      pose proof (NN c Hc A Q). qcase; qb2p; lra.
+    - destruct (ceq (con_of s c)); [lra|]. qcase; lra. }
+  pose proof (gap_of_tau s s' tau (proj1 AO) T Z). lra.
+Qed.
+
+(* ------------------------------------------------------------------ every op history *)
+(* PARTIAL (C02_solve_near_optimal_history): for the state s' returned by solve() in any history, with the multipliers
+   recomputed on s' (the real solver's lm fields are stale at return).  Two hypotheses about s' are not derived from
+   reachability here: (1) all_fresh s' - the statistics AB / AD of every live block are the sums over the block (the
+   invariant VpscInvB.stats_liveb / stats_adb: true after every satisfy(); it needs the preservation proofs of
+   VpscStats.v repeated for the two sums with the offsets); (2) length (clm s') = length (scons s') (every walk keeps
+   the length of the lm vector; the lm_only frame of VpscFrame.v forgets it).  Both are evaluated by the extracted
+   model on every state it visits on every run of the check (evidence key model_stationarity). *)
+Theorem solve_near_optimal_history_partial fuel s s' s2 tau :
+  reachable_wf s -> inc_solve fuel s = Ok s' ->
+  all_fresh s' -> length (clm s') = length (scons s') ->
+  relm s' = Ok s2 -> 0 <= tau ->
+  (forall c, (c < length (scons s'))%nat -> act_of s' c = true -> ceq (con_of s' c) = false -> - tau <= lm_of s2 c) ->
+  (forall i, (i < length (svars s'))%nat -> stat_res (svars s') (lcons_of s2) (xs_of s') i == 0) /\
+  forall y, feasible (svars s') (scons s') y ->
+    obj (svars s') (place_of (final_positions s')) - obj (svars s') y <= tau_bound s' tau.
+Proof.
+  intros R H AF Hlen HR T NN.
+  assert (R' : reachable_wf s') by exact (rw_step s Solve fuel s' R I H).
+  pose proof (reachable_inv s' (reachable_wf_reachable s' R')) as I'. pose proof (reachable_all_ok s' R') as AO.
+  split; [exact (proj2 (relm_stationary s' s2 I' AO AF Hlen HR))|].
+  exact (relm_near_optimal s' s2 tau I' AO AF Hlen HR T NN).
+Qed.
+
+(* ------------------------------------------------------------------ non-vacuity *)
+(* VpscInv.iv_vs / iv_cs: three variables (the middle one with weight 2 and scale 2), an inequality and an equality;
+   after solve() both constraints are active *)
+Lemma iv_wfv : wf_vars iv_vs.
+Proof. apply wf_varsb_spec. vm_compute. reflexivity. Qed.
+
+Definition ex_ret : st :=
+  Eval vm_compute in match inc_solve 100 (init iv_vs iv_cs) with Ok s => s | _ => init [] [] end.
+Definition ex_relm : st :=
+  Eval vm_compute in match relm ex_ret with Ok s => s | _ => init [] [] end.
+Lemma ex_ret_ok : inc_solve 100 (init iv_vs iv_cs) = Ok ex_ret.
+Proof. vm_compute. reflexivity. Qed.
+Lemma ex_relm_ok : relm ex_ret = Ok ex_relm.
+Proof. vm_compute. reflexivity. Qed.
+Lemma ex_fresh : all_fresh ex_ret.
+Proof.
+  intros v Hv. change (length (svars ex_ret)) with 3%nat in Hv.
+  destruct v as [|[|[|v]]]; try lia; vm_compute; repeat split; reflexivity.
+Qed.
+
+Example relm_stationary_example :
+  inc_solve 100 (init iv_vs iv_cs) = Ok ex_ret /\ relm ex_ret = Ok ex_relm /\
+  act_of ex_ret 0 = true /\ act_of ex_ret 1 = true /\
+  all_fresh ex_ret /\ length (clm ex_ret) = length (scons ex_ret) /\
+  (forall i, (i < 3)%nat -> stat_res (svars ex_ret) (lcons_of ex_relm) (xs_of ex_ret) i == 0) /\
+  (forall y, feasible (svars ex_ret) (scons ex_ret) y -> obj (svars ex_ret) (xs_of ex_ret) <= obj (svars ex_ret) y).
+Proof.
+  assert (HS : step 100 (init iv_vs iv_cs) Solve = Ok ex_ret) by (vm_compute; reflexivity).
+  assert (R' : reachable_wf ex_ret) by exact (rw_step _ Solve 100 ex_ret (rw_init iv_vs iv_cs iv_wfv iv_wf) I HS).
+  pose proof (reachable_inv ex_ret (reachable_wf_reachable ex_ret R')) as I'. pose proof (reachable_all_ok ex_ret R') as AO.
+  assert (Len : length (clm ex_ret) = length (scons ex_ret)) by reflexivity.
+  split; [exact ex_ret_ok|]. split; [exact ex_relm_ok|]. split; [reflexivity|]. split; [reflexivity|].
+  split; [exact ex_fresh|]. split; [exact Len|]. split.
+  - intros i Hi. exact (proj2 (relm_stationary ex_ret ex_relm I' AO ex_fresh Len ex_relm_ok) i Hi).
+  - refine (relm_optimal ex_ret ex_relm I' AO ex_fresh Len ex_relm_ok _).
+    intros c Hc _ _. change (length (scons ex_ret)) with 2%nat in Hc.
+    destruct c as [|[|c]]; try lia; vm_compute; discriminate.
+Qed.
+
+(* the same with the multipliers recomputed from a zeroed lm vector (findMinLM resets the multipliers of the active
+   constraints before it computes them, so their previous content is irrelevant): this removes the hypothesis on the
+   length of the lm vector; what remains is all_fresh *)
+Definition zero_lm (s : st) : st := set_clm s (repeat 0 (length (scons s))).
+Lemma zero_lm_lm_only s : lm_only s (zero_lm s).
+Proof. eexists _, _. reflexivity. Qed.
+
+Theorem solve_near_optimal_history_partial0 fuel s s' s2 tau :
+  reachable_wf s -> inc_solve fuel s = Ok s' ->
+  all_fresh s' ->
+  relm (zero_lm s') = Ok s2 -> 0 <= tau ->
+  (forall c, (c < length (scons s'))%nat -> act_of s' c = true -> ceq (con_of s' c) = false -> - tau <= lm_of s2 c) ->
+  (forall i, (i < length (svars s'))%nat -> stat_res (svars s') (lcons_of s2) (xs_of s') i == 0) /\
+  forall y, feasible (svars s') (scons s') y ->
+    obj (svars s') (place_of (final_positions s')) - obj (svars s') y <= tau_bound s' tau.
+Proof.
+  intros R H AF HR T NN.
+  assert (R' : reachable_wf s') by exact (rw_step s Solve fuel s' R I H).
+  pose proof (zero_lm_lm_only s') as L0.
+  pose proof (inv_lm_only _ _ L0 (reachable_inv s' (reachable_wf_reachable s' R'))) as I0.
+  pose proof (all_ok_lm_only _ _ L0 (reachable_all_ok s' R')) as AO0.
+  assert (AF0 : all_fresh (zero_lm s')) by (intros v Hv; exact (fresh_lm_only _ _ _ L0 (AF v Hv))).
+  assert (Len0 : length (clm (zero_lm s')) = length (scons (zero_lm s'))) by (cbn; apply repeat_length).
+  split; [exact (proj2 (relm_stationary (zero_lm s') s2 I0 AO0 AF0 Len0 HR))|].
+  exact (relm_near_optimal (zero_lm s') s2 tau I0 AO0 AF0 Len0 HR T NN).
+Qed.
